@@ -147,6 +147,28 @@ func ReadDay(ifacePath string, day int64, dirName string, mode, order int) (dc *
 	return dc, nil
 }
 
+// BlockExtents returns, per column file name, the (offset, length) of every stored block of a day
+// as its metadata declares them (used to place stored-byte damage at structurally interesting
+// positions: the first bytes of a block).
+func BlockExtents(ifacePath string, day int64, dirName string) (map[string][][2]int, error) {
+	_, suffix, perr := gpfile.ExtractTimestampMetadataSuffix(dirName)
+	if perr != nil {
+		return nil, perr
+	}
+	d := gpfile.NewDirReader(ifacePath, day, suffix)
+	if err := d.Open(); err != nil {
+		return nil, err
+	}
+	defer d.Close()
+	out := map[string][][2]int{}
+	for c := 0; c < int(types.ColIdxCount); c++ {
+		for _, b := range d.BlockMetadata[c].BlockList {
+			out[types.ColumnFileNames[c]+".gpf"] = append(out[types.ColumnFileNames[c]+".gpf"], [2]int{int(b.Offset), int(b.Len)})
+		}
+	}
+	return out, nil
+}
+
 // CompareDay compares a day read back with the model day. It returns "" when they agree.
 func CompareDay(want *model.Day, got *DayContent) string {
 	if len(got.Blocks) != len(want.Blocks) {
